@@ -287,11 +287,13 @@ def rules(ck, P):
                 stats["auto"] += 1
                 continue
             e = th.get(s.key)
-            if e is not None:
+            lapsed = census.entry_lapsed(e, s) if e is not None else None
+            if e is not None and lapsed is None:
                 stats["reviewed"] += 1
                 ck.ok("R-HANDLER-TOTAL", s.key, "reviewed: " + e["reason"], s.loc)
                 continue
-            if s.key in t19 or s.key in tst:
+            sh_ = t19.get(s.key) or tst.get(s.key)
+            if sh_ is not None and lapsed is None and census.entry_lapsed(sh_, s) is None:
                 stats["shared"] += 1
                 continue
             stats["violation"] += 1
